@@ -36,7 +36,7 @@ type world struct {
 	sets   []cty.ValueSet // shared, used read-only by tasks (tasks mutate only their own copies)
 	psets  []cty.PathSet
 	paths  []cty.Path
-	convs  []sharedConv // conversions obtained once by the main goroutine and applied by every task
+	convs  []sharedConv   // conversions obtained once by the main goroutine and applied by every task
 	byKind map[Kind][]int // pool indices by kind of (unmarked) type
 	marks  []cty.ValueMarks
 }
